@@ -10,11 +10,11 @@ for d in checks/*/; do
   mkdir -p .work/$id
   INSTR=""
   if [ -f $d/instr.txt ]; then
-    go build -o bin/vinstr ./tools/vinstr || rc=1
+    go build -trimpath -o bin/vinstr ./tools/vinstr || rc=1
     bin/vinstr -repo /repo -out .work/$id/instr -list $d/instr.txt -json .work/$id/instr.json > .work/$id/vinstr.log 2>&1 || rc=1
     INSTR=.work/$id/instr.json
   fi
   python3 tools/mkoverlay.py /repo $INSTR > .work/$id/overlay.json
-  go build -tags verif -overlay .work/$id/overlay.json -o bin/$id ./checks/$id || { echo "setup: build of $id failed"; rc=1; }
+  go build -trimpath -tags verif -overlay .work/$id/overlay.json -o bin/$id ./checks/$id || { echo "setup: build of $id failed"; rc=1; }
 done
 exit $rc
